@@ -672,6 +672,10 @@ func (c *Ctx) VerifyFunction(key string) (*FuncReport, error) {
 		v := c.FreshConst(st, "fv."+fv.Name(), c.Reg.SortOf(fv.Type()))
 		c.AssumeWF(st, v, fv.Type())
 		bindings[i] = v
+		if _, isPtr := fv.Type().Underlying().(*types.Pointer); isPtr {
+			// a captured variable is referenced through the address of its (existing) cell
+			st.Assume(T(SBool, "(> %s 0)", v.S))
+		}
 		run.params[fv.Name()] = v
 		run.modelVars = append(run.modelVars, ModelVar{Name: fv.Name(), Term: v.S, Sort: v.Sort})
 	}
@@ -683,8 +687,24 @@ func (c *Ctx) VerifyFunction(key string) (*FuncReport, error) {
 	for i, fv := range fn.FreeVars {
 		fr0.regs[fv] = bindings[i]
 	}
-	// package-level variables keep their initial values unless the contract says otherwise
-	c.assumeGlobals(st, fn)
+	// thread-local ghost counters start at zero: registrations made (wg.Add) and not yet handed to
+	// a spawned goroutine, and registrations this goroutine itself was started with
+	st.arrays[famWg] = ConstArray(ArraySort(SInt, SInt), IntLit(0))
+	st.arrays["TokHeld"] = ConstArray(ArraySort(SInt, SInt), IntLit(0))
+	st.arrays["Waited"] = ConstArray(ArraySort(SInt, SBool), False)
+	c.famSorts[famWg], c.famSorts["TokHeld"], c.famSorts["Waited"] = ArraySort(SInt, SInt), ArraySort(SInt, SInt), ArraySort(SInt, SBool)
+	// assumed facts about package-level variables of dependencies (extern spec `axiom` lines)
+	{
+		env := c.envForFrame(st, fr0)
+		for _, ax := range c.Axioms {
+			savedErrs := len(c.Errors)
+			if t, err := c.evalBool(env, ax.Expr); err == nil {
+				st.Assume(t)
+				run.externUsed["axiom: "+ax.Text] = true
+			}
+			c.Errors = c.Errors[:savedErrs]
+		}
+	}
 	if ct != nil {
 		env := c.envForFrame(st, fr0)
 		for _, l := range ct.Lets {
@@ -916,7 +936,7 @@ func (c *Ctx) checkFrame(st *State, fn *ssa.Function, ct *Contract, env *specEnv
 			// only objects allocated by this very call are written (by construction of the summary)
 			continue
 		}
-		if fam == famAlloc || fam == famHeld || fam == famWg || fam == famChLen || fam == famChClosed || fam == famChCap || fam == famCtxDone {
+		if fam == famAlloc || fam == famHeld || fam == famWg || fam == famChLen || fam == famChClosed || fam == famChCap || fam == famCtxDone || fam == famAtomicBool || fam == "TokHeld" || fam == "Waited" {
 			continue
 		}
 		cur, ok1 := st.arrays[fam]
@@ -934,7 +954,7 @@ func (c *Ctx) checkFrame(st *State, fn *ssa.Function, ct *Contract, env *specEnv
 			// lock-protected fields that other goroutines may write are unstable whenever the
 			// lock is not held: they are outside the frame discipline
 			parts := strings.SplitN(fam, "|", 3)
-			if fm := c.FieldAnnos[parts[1]+"|"+parts[2]]; fm != nil && fm.Mode == "guarded_by" && fm.Owned == "" {
+			if fm := c.FieldAnnos[parts[1]+"|"+parts[2]]; fm != nil && fm.Mode == "guarded_by" && (fm.Owned == "" || fm.Owned != c.cur.goroutine) {
 				continue
 			}
 		}
